@@ -16,12 +16,16 @@ import (
 type State struct {
 	m     map[string]string
 	epoch int
+	unesc map[*ssa.Alloc]string // local allocations whose address has not left this function yet -> their Ref term
 }
 
 func (s State) clone() State {
-	n := State{m: make(map[string]string, len(s.m)), epoch: s.epoch}
+	n := State{m: make(map[string]string, len(s.m)), epoch: s.epoch, unesc: make(map[*ssa.Alloc]string, len(s.unesc))}
 	for k, v := range s.m {
 		n.m[k] = v
+	}
+	for k, v := range s.unesc {
+		n.unesc[k] = v
 	}
 	return n
 }
@@ -98,8 +102,20 @@ type Enc struct {
 	prop     string // property being checked ("" = sweep: everything active)
 	safety   bool   // safety obligations of this function are owned by prop
 	assumes  []string
+	merges   map[int]*mergeInfo
+	dyn      map[ssa.Value]types.Type // interface-typed parameters specialised to a dynamic type
+	spec     map[string]string        // parameter name -> type string (from the property config)
+	specName string
+	skipKinds []string
 	tinv     []*Clause
 	freeRef  map[string]*Val // closure variables captured by reference: name -> pointer to the cell
+}
+
+func (e *Enc) fnName() string {
+	if e.specName != "" {
+		return e.specName
+	}
+	return fname(e.fn)
 }
 
 func (e *Enc) active(c *Clause) bool {
@@ -222,15 +238,18 @@ func (e *Enc) oblige(kind, desc string, pos token.Pos, goal string) *Obligation 
 	k := e.kindN[kind+desc]
 	e.kindN[kind+desc]++
 	o := &Obligation{
-		Name:    fmt.Sprintf("%s/%s#%s:%s@%d", e.mod, fname(e.fn), kind, desc, k),
+		Name:    fmt.Sprintf("%s/%s#%s:%s@%d", e.mod, e.fnName(), kind, desc, k),
 		Kind:    kind,
 		Desc:    desc,
 		Pos:     e.prog.Fset.Position(pos),
 		NCons:   len(e.cons),
 		Goal:    imp(e.reach[e.curBlock], goal),
 		Houdini: -1,
-		Owned:   e.safety,
+		Owned:   e.safety && !contains(e.skipKinds, kind),
 		Block:   e.curBlock.Index,
+	}
+	if e.safety && contains(e.skipKinds, kind) {
+		e.note("#%s obligations of this function are not claimed (configured skip)", kind)
 	}
 	e.obls = append(e.obls, o)
 	// assert-then-assume
@@ -259,7 +278,7 @@ func (e *Enc) arr(st *State, name, elemSort string) string {
 	}
 	nm := fmt.Sprintf("%s@E%d", name, st.epoch)
 	first := !e.declared[strings.ReplaceAll(nm, "|", ":")]
-	a := e.declare(nm, "(Array Ref "+elemSort+")")
+	a := e.epochArr(st, name, "(Array Ref "+elemSort+")")
 	if first && st.epoch == 0 && elemSort == "Ref" {
 		// heap closedness at entry: every object reference stored in the pre-state was allocated before entry
 		e.assume(fmt.Sprintf("(forall ((r Ref)) (! (=> ((_ is obj) (select %s r)) (<= (oid (select %s r)) |alloc!0|)) :pattern ((select %s r))))", a, a, a))
@@ -275,16 +294,116 @@ func (e *Enc) setArr(st *State, name, elemSort, newTerm string) {
 	st.m[name] = sym
 }
 
-func (e *Enc) havocAll(st *State) {
+// havocAll forgets the whole heap model (a call into unknown code) - except for the contents of objects that this
+// function allocated itself and whose address has not been handed out yet: no other code can reach them.
+func (e *Enc) havocAll(st *State) { e.havocAllExcept(st, nil) }
+
+func (e *Enc) havocAllExcept(st *State, alsoWritten map[string]bool) {
+	pre := st.clone()
 	e.n++
 	st.epoch = e.n
 	st.m = map[string]string{}
+	for a, ref := range pre.unesc {
+		t := a.Type().Underlying().(*types.Pointer).Elem()
+		e.preserve(&pre, st, ref, t, alsoWritten)
+	}
+}
+
+func (e *Enc) preserve(pre, post *State, ref string, t types.Type, skip map[string]bool) {
+	if s, ok := isStruct(t); ok {
+		key := structKey(t)
+		for i := 0; i < s.NumFields(); i++ {
+			f := s.Field(i)
+			if _, ok := isStruct(f.Type()); ok {
+				e.preserve(pre, post, app("emb", ref, num(int64(i))), f.Type(), skip)
+				continue
+			}
+			for _, l := range leaves(f.Type()) {
+				n := "F|" + key + "|" + f.Name() + "|" + l.path
+				if skip[n] {
+					continue
+				}
+				e.assume(eq(sel(e.arr(post, n, l.sort), ref), sel(e.arr(pre, n, l.sort), ref)))
+			}
+		}
+		return
+	}
+	if _, ok := t.Underlying().(*types.Array); ok {
+		return
+	}
+	key := typeKey(t)
+	for _, l := range leaves(t) {
+		n := "C|" + key + "|" + l.path
+		if skip[n] {
+			continue
+		}
+		e.assume(eq(sel(e.arr(post, n, l.sort), ref), sel(e.arr(pre, n, l.sort), ref)))
+	}
+}
+
+func rootAlloc(v ssa.Value) *ssa.Alloc {
+	for {
+		switch x := v.(type) {
+		case *ssa.Alloc:
+			return x
+		case *ssa.FieldAddr:
+			v = x.X
+		case *ssa.IndexAddr:
+			if _, ok := x.X.Type().Underlying().(*types.Pointer); ok {
+				v = x.X
+			} else {
+				return nil
+			}
+		default:
+			return nil
+		}
+	}
+}
+
+// escapes lists the local allocations whose address leaves the function's hands at this instruction.
+func escapes(in ssa.Instruction) []*ssa.Alloc {
+	var out []*ssa.Alloc
+	add := func(v ssa.Value) {
+		if v == nil {
+			return
+		}
+		if a := rootAlloc(v); a != nil {
+			out = append(out, a)
+		}
+	}
+	switch x := in.(type) {
+	case *ssa.Store:
+		add(x.Val)
+	case *ssa.UnOp, *ssa.FieldAddr, *ssa.IndexAddr, *ssa.DebugRef, *ssa.Alloc:
+	case *ssa.MapUpdate:
+		add(x.Key)
+		add(x.Value)
+	default:
+		for _, op := range in.Operands(nil) {
+			if op != nil {
+				add(*op)
+			}
+		}
+	}
+	return out
 }
 
 func (e *Enc) havocArr(st *State, name, elemSort string) {
 	arrSorts[name] = "(Array Ref " + elemSort + ")"
 	e.n++
 	st.m[name] = e.declare(fmt.Sprintf("%s@%d", name, e.n), "(Array Ref "+elemSort+")")
+	e.wfArray(name, st.m[name])
+}
+
+// wfArray states heap well-formedness for a fresh incarnation of a slice-header leaf array: lengths, offsets and
+// capacities stored in the heap are those of bit-valid slices.
+func (e *Enc) wfArray(name, sym string) {
+	if arrSorts[name] != "(Array Ref Int)" {
+		return
+	}
+	if strings.HasSuffix(name, "|len") || strings.HasSuffix(name, "|cap") || strings.HasSuffix(name, "|off") {
+		e.assume(fmt.Sprintf("(forall ((r Ref)) (! (and (<= 0 (select %s r)) (<= (select %s r) 72057594037927936)) :pattern ((select %s r))))", sym, sym, sym))
+	}
 }
 
 func structKey(t types.Type) string { return typeKey(t) }
@@ -605,7 +724,18 @@ func (e *Enc) mergeStates(b *ssa.BasicBlock, preds []*ssa.BasicBlock) State {
 		}
 	}
 	e.n++
-	st := State{m: map[string]string{}, epoch: e.n}
+	st := State{m: map[string]string{}, epoch: e.n, unesc: map[*ssa.Alloc]string{}}
+	for a, r := range e.endState[preds[0]].unesc {
+		all := true
+		for _, p := range preds[1:] {
+			if _, ok := e.endState[p].unesc[a]; !ok {
+				all = false
+			}
+		}
+		if all {
+			st.unesc[a] = r
+		}
+	}
 	sameEpoch := true
 	for _, p := range preds[1:] {
 		if e.endState[p].epoch != e.endState[preds[0]].epoch {
@@ -638,7 +768,13 @@ func (e *Enc) mergeStates(b *ssa.BasicBlock, preds []*ssa.BasicBlock) State {
 		st.m[n] = sym
 	}
 	if !sameEpoch {
-		// arrays never named so far differ between predecessors: be conservative, they are simply unrelated
+		// arrays not named so far are tied to the predecessors lazily (epochArr)
+		mi := &mergeInfo{}
+		for _, p := range preds {
+			mi.preds = append(mi.preds, e.endState[p])
+			mi.conds = append(mi.conds, e.edgeCond(p, b))
+		}
+		e.merges[st.epoch] = mi
 	}
 	return st
 }
@@ -650,5 +786,39 @@ func (e *Enc) arrRaw(st *State, name, fullSort string) string {
 	if s, ok := st.m[name]; ok {
 		return s
 	}
-	return e.declare(fmt.Sprintf("%s@E%d", name, st.epoch), fullSort)
+	return e.epochArr(st, name, fullSort)
+}
+
+// epochArr is the incarnation of an array that has not been written since the state's epoch began. For an epoch that
+// was created by merging control-flow predecessors the incarnation is tied, lazily and once, to the predecessors'
+// incarnations under their edge conditions (so facts about arrays first mentioned after the join are not lost).
+func (e *Enc) epochArr(st *State, name, fullSort string) string {
+	nm := fmt.Sprintf("%s@E%d", name, st.epoch)
+	key := strings.ReplaceAll(nm, "|", ":")
+	if e.declared[key] {
+		return "|" + key + "|"
+	}
+	sym := e.declare(nm, fullSort)
+	arrSorts[name] = fullSort
+	if _, ok := e.merges[st.epoch]; !ok {
+		e.wfArray(name, sym)
+	}
+	if mi, ok := e.merges[st.epoch]; ok {
+		for i := range mi.preds {
+			ps := mi.preds[i]
+			var inc string
+			if x, ok := ps.m[name]; ok {
+				inc = x
+			} else {
+				inc = e.epochArr(&ps, name, fullSort)
+			}
+			e.assume(imp(mi.conds[i], eq(sym, inc)))
+		}
+	}
+	return sym
+}
+
+type mergeInfo struct {
+	preds []State
+	conds []string
 }
